@@ -1990,6 +1990,12 @@ lydjson_envelope(struct lyjson_ctx *jsonctx, const char *name, const char *modul
 
     r = lyjson_ctx_next(jsonctx, &status);
     LY_CHECK_ERR_GOTO(r, rc = r, cleanup);
+    if (status != LYJSON_OBJECT) {
+        LOGVAL(jsonctx->ctx, LYVE_SYNTAX_JSON, "Expecting JSON %s but %s found as the value of \"%s\".",
+                lyjson_token2str(LYJSON_OBJECT), lyjson_token2str(status), name);
+        rc = LY_EVALID;
+        goto cleanup;
+    }
 
     /* create node */
     rc = lyd_create_opaq(jsonctx->ctx, name, strlen(name), prefix, prefix_len, prefix, prefix_len, NULL, 0, NULL,
